@@ -248,8 +248,13 @@ func NewLogger(filename string, rule RotateRule, compress bool) (*RotateLogger, 
 
 // Write 将 data 写入轮换日志。
 func (l *RotateLogger) Write(data []byte) (int, error) {
+	// 写入是异步的：调用方（以及 fmt 的缓冲池）在 Write 返回后即可复用 data，
+	// 因此入队的必须是副本。
+	buf := make([]byte, len(data))
+	copy(buf, data)
+
 	select {
-	case l.channel <- data:
+	case l.channel <- buf:
 		return len(data), nil
 	case <-l.done:
 		log.Println(string(data))
